@@ -1,8 +1,14 @@
 /-
   C01 — matching conforms to RFC 5234/7405 for every grammar and input.
-  ONLY property theorems live here; helper lemmas are in Abnf/Sound.lean etc.
+  ONLY property theorems live here; helper lemmas are in Abnf/Sound.lean, Abnf/Complete.lean.
+
+  Specification: `Derives` / `M` (Abnf/Spec.lean), the RFC 5234 derivation relation.
+  Domain: `GBoundsOk` (every repetition has min ≤ max) and, for completeness, `GPlain` (no first-match
+  flags, no exclusions: those are the subject of C11).  "The engine gives an answer" = its result is a
+  match list or ParseError, i.e. not the model's "out of fuel" (existence of sufficient fuel for every
+  grammar without left recursion is NOT proved here; see DESIGN.md section 12).
 -/
-import Abnf.Sound
+import Abnf.Complete
 namespace Abnf.C01
 
 /-- No underivable end offset is ever reported: every end listed by the engine model for any
@@ -14,5 +20,100 @@ theorem reported_end_is_derivable (G : Grammar) (hG : GBoundsOk G) (f : Nat) (s 
   intro j hj
   obtain ⟨m, hm, rfl⟩ := List.mem_map.mp hj
   exact ⟨m.nodes, lparse_sound G hG f s e he i ms h m hm⟩
+
+/-- No derivable end offset is ever missing: whenever the engine gives an answer, every RFC 5234
+derivable end is listed; and ParseError means that there is none. -/
+theorem derivable_end_is_reported (G : Grammar) (hG : GBoundsOk G) (hP : GPlain G) (f : Nat) (s : Src) (e : Expr)
+    (hpl : Plain e) (he : BoundsOk e) (i : Nat) :
+    (∀ ms, lparse G f s e i = .ok ms → ∀ j, M G s e i j → j ∈ stops ms) ∧
+    (lparse G f s e i = .fail → ∀ j, ¬ M G s e i j) := by
+  obtain ⟨h1, h2⟩ := lparse_complete G hG hP f s e hpl he i
+  exact ⟨fun ms h j ⟨ns, hd⟩ => h1 ms h ns j hd, fun h j ⟨ns, hd⟩ => h2 h ns j hd⟩
+
+/-- **C01.**  For every grammar of the domain, every rule, source and offset: the set of end offsets
+enumerated by the match-listing API is exactly the set RFC 5234 defines. -/
+theorem ends_iff_derivable (G : Grammar) (hG : GBoundsOk G) (hP : GPlain G) (f : Nat) (s : Src) (r : Nat) (i : Nat) :
+    (∀ ms, lparse G f s (.ref r) i = .ok ms → ∀ j, j ∈ stops ms ↔ M G s (.ref r) i j) ∧
+    (lparse G f s (.ref r) i = .fail → ∀ j, ¬ M G s (.ref r) i j) := by
+  obtain ⟨h1, h2⟩ := derivable_end_is_reported G hG hP f s (.ref r) Plain.ref BoundsOk.ref i
+  exact ⟨fun ms h j => ⟨reported_end_is_derivable G hG f s (.ref r) BoundsOk.ref i ms h j, h1 ms h j⟩, h2⟩
+
+/-! ### what the specification says, construct by construct (the clauses named in the property) -/
+
+/-- alternation is the union of its alternatives -/
+theorem spec_alternation (G : Grammar) (s : Src) (es : List Expr) (first : Bool) (i j : Nat) :
+    M G s (.alt es first) i j ↔ ∃ e ∈ es, M G s e i j := by
+  constructor
+  · rintro ⟨ns, h⟩
+    cases h with
+    | alt hmem hd => exact ⟨_, hmem, _, hd⟩
+  · rintro ⟨e, he, ns, hd⟩; exact ⟨ns, Derives.alt he hd⟩
+
+/-- concatenation is sequencing (every split point is considered: full backtracking) -/
+theorem spec_concatenation (G : Grammar) (s : Src) (e : Expr) (es : List Expr) (i j : Nat) :
+    M G s (.cat (e :: es)) i j ↔ ∃ k, M G s e i k ∧ M G s (.cat es) k j := by
+  constructor
+  · rintro ⟨ns, h⟩
+    cases h with
+    | cat_cons h1 h2 => exact ⟨_, ⟨_, h1⟩, ⟨_, h2⟩⟩
+  · rintro ⟨k, ⟨n1, h1⟩, ⟨n2, h2⟩⟩; exact ⟨n1 ++ n2, Derives.cat_cons h1 h2⟩
+
+/-- `a*b x` admits exactly `a..b` iterations (`[x]` is `0*1 x`: `Option` is compiled to `rep 0 (some 1)`) -/
+theorem spec_repetition (G : Grammar) (s : Src) (cid mn : Nat) (mx : Option Nat) (e : Expr) (i j : Nat) :
+    M G s (.rep cid mn mx e) i j ↔ ∃ n, mn ≤ n ∧ (∀ m, mx = some m → n ≤ m) ∧ IterEnd G s e i n j := by
+  constructor
+  · rintro ⟨ns, h⟩
+    cases h with
+    | rep h1 h2 h3 => exact ⟨_, h1, h2, _, h3⟩
+  · rintro ⟨n, h1, h2, ns, h3⟩; exact ⟨ns, Derives.rep h1 h2 h3⟩
+
+/-- quoted strings match case-insensitively over US-ASCII letters only, exactly with %s; %b/%d/%x values
+are case-sensitive one-string literals -/
+theorem spec_literal (G : Grammar) (s : Src) (v : List Nat) (cs : Bool) (i j : Nat) :
+    M G s (.lit v cs) i j ↔
+      i ≤ s.length ∧ j = i + ((s.drop i).take v.length).length ∧
+      (if cs then (s.drop i).take v.length = v else ((s.drop i).take v.length).map foldc = v.map foldc) := by
+  constructor
+  · rintro ⟨ns, h⟩
+    cases h with
+    | lit hi hsrc hok =>
+      subst hsrc
+      refine ⟨hi, rfl, ?_⟩
+      cases cs <;> simpa [litOk] using hok
+  · rintro ⟨hi, hj, hok⟩
+    subst hj
+    refine ⟨_, Derives.lit hi rfl ?_⟩
+    cases cs <;> simpa [litOk] using hok
+
+/-- ranges compare by code point -/
+theorem spec_range (G : Grammar) (s : Src) (lo hi : Nat) (i j : Nat) :
+    M G s (.range lo hi) i j ↔ j = i + 1 ∧ ∃ c, s[i]? = some c ∧ lo ≤ c ∧ c ≤ hi := by
+  constructor
+  · rintro ⟨ns, h⟩
+    cases h with
+    | range hc h1 h2 => exact ⟨rfl, _, hc, h1, h2⟩
+  · rintro ⟨rfl, c, hc, h1, h2⟩; exact ⟨_, Derives.range hc h1 h2⟩
+
+/-- the empty string matches at every position, including end of input -/
+theorem spec_empty_string (G : Grammar) (s : Src) (cs : Bool) (i j : Nat) :
+    M G s (.lit [] cs) i j ↔ i ≤ s.length ∧ j = i := by
+  rw [spec_literal]
+  cases cs <;> simp
+
+/-- prose never matches -/
+theorem spec_prose (G : Grammar) (s : Src) (i j : Nat) : ¬ M G s .prose i j := by
+  rintro ⟨ns, h⟩; cases h
+
+/-- the ASCII fold identifies exactly upper and lower case of the 26 letters: U+212A, U+017F, ... are
+not folded onto letters -/
+theorem fold_ascii_only (c d : Nat) : foldc c = foldc d ↔
+    c = d ∨ (0x41 ≤ c ∧ c ≤ 0x5A ∧ d = c + 32) ∨ (0x41 ≤ d ∧ d ≤ 0x5A ∧ c = d + 32) := by
+  unfold foldc
+  split <;> split <;> omega
+
+/-- non-vacuity: an ambiguous nullable repetition with backtracking into a concatenation -/
+example :
+    let G : Grammar := #[⟨"r", some (.cat [.rep 0 0 none (.alt [.lit [97] false, .lit [] false] false), .lit [97] false]), none⟩]
+    stops (match lparse G 10 [65, 97, 97] (.ref 0) 0 with | .ok ms => ms | _ => []) = [3, 2, 1] := by decide
 
 end Abnf.C01
